@@ -147,8 +147,8 @@ func setLeaves(data []byte, sets map[string]interface{}) []byte {
 		}
 		c = set(c, p, sets[k])
 	}
-	b, _ := json.Marshal(c)
-	return b
+	// keys in the original order (OLVM insists on the canonical serialisation of its payload)
+	return orderedMarshal(c, data)
 }
 
 func pathKey(p []interface{}) string { b, _ := json.Marshal(p); return string(b) }
